@@ -1073,11 +1073,11 @@ func (e *executor) executeGroupBy(ctx context.Context, index string, c *pql.Call
 	if len(c.Children) == 0 {
 		return nil, errors.New("need at least one child call")
 	}
-	limit := int(^uint(0) >> 1)
-	if lim, hasLimit, err := c.UintArg("limit"); err != nil {
+	// limit is how many groups every stage has to keep: the first offset
+	// groups are only dropped from the final, merged result.
+	limit, err := groupByStageLimit(c)
+	if err != nil {
 		return nil, err
-	} else if hasLimit {
-		limit = int(lim)
 	}
 	filter, _, err := c.CallArg("filter")
 	if err != nil {
@@ -1134,12 +1134,20 @@ func (e *executor) executeGroupBy(ctx context.Context, index string, c *pql.Call
 	}
 	results, _ := other.([]GroupCount)
 
+	// A remote node returns its share of the first offset+limit groups; the
+	// coordinator applies offset and limit to the merged result.
+	if opt.Remote {
+		return results, nil
+	}
+
 	// Apply offset.
 	if offset, hasOffset, err := c.UintArg("offset"); err != nil {
 		return nil, err
 	} else if hasOffset {
-		if int(offset) < len(results) {
+		if offset < uint64(len(results)) {
 			results = results[offset:]
+		} else {
+			results = results[:0]
 		}
 	}
 	// Apply limit.
@@ -1151,6 +1159,27 @@ func (e *executor) executeGroupBy(ctx context.Context, index string, c *pql.Call
 		}
 	}
 	return results, nil
+}
+
+// groupByStageLimit returns the number of groups a GroupBy has to carry through
+// the per-shard iteration and the merges: limit+offset, because offset skips
+// groups of the final, ordered result.
+func groupByStageLimit(c *pql.Call) (int, error) {
+	const maxInt = int(^uint(0) >> 1)
+	lim, hasLimit, err := c.UintArg("limit")
+	if err != nil {
+		return 0, err
+	} else if !hasLimit {
+		return maxInt, nil
+	}
+	offset, _, err := c.UintArg("offset")
+	if err != nil {
+		return 0, err
+	}
+	if lim > uint64(maxInt) || offset > uint64(maxInt)-lim {
+		return maxInt, nil
+	}
+	return int(lim + offset), nil
 }
 
 // FieldRow is used to distinguish rows in a group by result.
@@ -1254,11 +1283,9 @@ func (e *executor) executeGroupByShard(ctx context.Context, index string, c *pql
 		return []GroupCount{}, nil
 	}
 
-	limit := int(^uint(0) >> 1)
-	if lim, hasLimit, err := c.UintArg("limit"); err != nil {
+	limit, err := groupByStageLimit(c)
+	if err != nil {
 		return nil, err
-	} else if hasLimit {
-		limit = int(lim)
 	}
 
 	results := make([]GroupCount, 0)
